@@ -220,3 +220,56 @@ func provenanceAll(P *core.Program, pkg string, v ssa.Value, leaf func(ssa.Value
 	}
 	return walk(v, 0)
 }
+
+// inputOf: v is one of fn's inputs — a parameter, or a field of a parameter struct (a request
+// struct replacing a long parameter list: `req.contents`), by value or through a pointer.
+// It returns the parameter and the field name ("" for the parameter itself).
+func inputOf(fn *ssa.Function, v ssa.Value) (*ssa.Parameter, string, bool) {
+	v = core.Resolve(v)
+	if pa, isP := v.(*ssa.Parameter); isP {
+		return pa, "", pa.Parent() == fn
+	}
+	var base ssa.Value
+	field := ""
+	switch x := v.(type) {
+	case *ssa.Field:
+		_, field, _ = core.FieldName(x)
+		base = x.X
+	case *ssa.UnOp:
+		if fa, isFa := x.X.(*ssa.FieldAddr); isFa && x.Op == token.MUL {
+			_, field, _ = core.FieldName(fa)
+			base = fa.X
+		}
+	}
+	for i := 0; i < 4 && base != nil; i++ {
+		base = core.Resolve(base)
+		switch b := base.(type) {
+		case *ssa.Parameter:
+			return b, field, b.Parent() == fn
+		case *ssa.UnOp:
+			if b.Op == token.MUL {
+				base = b.X
+				continue
+			}
+		case *ssa.Alloc:
+			// a by-value struct parameter spilled to a local cell
+			if sts := core.StoresTo(b); len(sts) == 1 {
+				base = sts[0].Val
+				continue
+			}
+		}
+		break
+	}
+	return nil, "", false
+}
+
+// funcOr returns the first of the named functions that exists with a body: an anchor that was
+// inlined into its only caller is looked for there (`finishCompose`, else `handleGcsCompose`).
+func funcOr(P *core.Program, pkg string, names ...string) *ssa.Function {
+	for _, n := range names {
+		if f := P.Func(pkg, n); f != nil && f.Blocks != nil {
+			return f
+		}
+	}
+	return P.MustFunc(pkg, names[0])
+}
